@@ -134,6 +134,11 @@ class Unit:
             checks = self.spec(S, args, out)
         except PreconditionFailed as e:
             return "precondition", str(e)
+        except K.Unsupported as e:
+            if "non-finite" in str(e):
+                # the oracle compares with exact finite values: a nan/inf in the real outcome cannot equal any of them
+                return "reproduced_other", f"the real code returned a non-finite value where the property prescribes a finite one ({e}); outcome={_short(out)}"
+            raise
         failed = []
         for lab, bad in checks:
             try:
@@ -321,6 +326,20 @@ class Unit:
                 continue                       # the unit declares this model not comparable (over-approximating stub): next model
             if not problems:
                 state["witness_ok"] += 1
+                # concrete-only input variants of the same witness (values no solver model can carry: an infinite reference
+                # frequency, a negative zero): replayed against the oracle - sampling on the replay side, never a verdict of "holds"
+                for variant in self.variants:
+                    if variant is None or (self.name, variant) in state.setdefault("variants_done", set()):
+                        continue
+                    state["variants_done"].add((self.name, variant))
+                    status, detail = self.replay("witness", values, variant)
+                    if status.startswith("reproduced"):
+                        state["violations"].append({
+                            "unit": self.name, "label": "witness", "values": jsonable(dict(values, _variant=variant)),
+                            "detail": detail + f" [input variant: {variant}]",
+                            "signature": self.signature("witness", values, detail), "decisions": [t[0] for t in ctx.trace]})
+                        if len(state["violations"]) >= self.max_violations:
+                            raise StopUnit()
                 if attempt < len(cands):
                     continue                   # a boundary candidate agreed: go on to the next one / to the solver models
                 if failures:
